@@ -8,6 +8,14 @@ AREAS = {
                 'control requests; a case is non-trivial when the model run takes at least one of the tagged branches '
                 '(second lifecycle for an ECU, resume, control request, missing timestamp, several ECUs, merge); distinct = distinct case text',
     },
+    'dp': {
+        'shrink_sep': ';', 'head_sep': None,
+        'rule': 'byte streams built from items: well-formed messages (all 32 combinations of the optional header parts, both byte orders, '
+                'payload 0..300 bytes, thorough: up to the 16-bit maximum) and garbage runs (0..70 bytes, thorough: up to 3 KiB); two thirds of '
+                'the cases are in the range of C01 (marker-free bytes incl. near-marker bytes D L T S, one framing), one third malformed '
+                '(markers inside payloads, wrong lengths, mixed framing, truncation); non-trivial = the model run tags at least one branch '
+                '(message recognised, bytes skipped, header-part flags, payload classes)',
+    },
 }
 
 def _lc_project(s):
@@ -16,6 +24,16 @@ def _lc_project(s):
 
 
 PROPS = {
+    'C01': {
+        'id': 'C01', 'area': 'dp',
+        'theorems': ['Props.C01_consts', 'Props.C01_storage_at_msg', 'Props.C01_serial_at_msg', 'Props.C01_at_garbage'],
+        'n_quick': 3000, 'n_thorough': 40000,
+    },
+    'C02': {
+        'id': 'C02', 'area': 'dp',
+        'theorems': ['Props.C02_written_parses'],
+        'n_quick': 3000, 'n_thorough': 40000,
+    },
     'C05': {
         'id': 'C05', 'area': 'lc',
         'theorems': ['Props.C05_once_in_order', 'Props.C05_assigned_own_ecu'],
